@@ -48,12 +48,16 @@ class Outcome(object):
         self.nontrivial = False
         self.excluded = []   # names of known-finding classes avoided by construction
         self.info = {}
+        self.counters = {}   # name -> int, summed over all cases into evidence coverage.counters
 
     def fail(self, bucket, summary, detail=None):
         self.violations.append(Violation(bucket, summary, detail))
 
     def label(self, *names):
         self.labels.extend(names)
+
+    def count(self, name, amount=1):
+        self.counters[name] = self.counters.get(name, 0) + amount
 
 
 class HarnessError(RuntimeError):
@@ -91,9 +95,12 @@ class Stats(object):
         self.buckets = {}    # bucket -> dict(summary, case, count, detail)
         self.errors = []
         self.notes = []
+        self.counters = {}
 
     def record(self, case, outcome):
         self.evaluations += 1
+        for key, val in outcome.counters.items():
+            self.counters[key] = self.counters.get(key, 0) + val
         for lab in set(outcome.labels):
             self.labels[lab] = self.labels.get(lab, 0) + 1
         for exc in outcome.excluded:
@@ -124,6 +131,8 @@ class Stats(object):
             self.labels[key] = self.labels.get(key, 0) + val
         for key, val in other['excluded'].items():
             self.excluded[key] = self.excluded.get(key, 0) + val
+        for key, val in other.get('counters', {}).items():
+            self.counters[key] = self.counters.get(key, 0) + val
         for smp in other['samples']:
             if len(self.samples) < 8:
                 self.samples.append(smp)
@@ -143,7 +152,7 @@ class Stats(object):
     def export(self):
         return dict(evaluations=self.evaluations, nontrivial_hashes=sorted(self.nontrivial_hashes),
                     labels=self.labels, excluded=self.excluded, samples=self.samples,
-                    buckets=self.buckets, errors=self.errors, notes=self.notes)
+                    buckets=self.buckets, errors=self.errors, notes=self.notes, counters=self.counters)
 
 
 def _safe_execute(check, case, stats):
@@ -368,6 +377,7 @@ def write_evidence(check, tier, seed_value, stats, wall_s, n_violations, known_l
         samples=stats.samples if stats.samples else ['(no non-trivial case in this run)'],
         class_histogram=dict(sorted(stats.labels.items())),
         excluded_by_construction=stats.excluded,
+        counters=dict(sorted(stats.counters.items())),
         known_findings_reproduced=known_lines,
         notes=stats.notes[:20],
         harness_errors=stats.errors[:3],
